@@ -54,6 +54,19 @@ def utf8 (op : String) (args : List String) : String :=
     match unhex h with
     | some bs => if PV.Utf8.isUTF8 bs then "true" else "false"
     | none => "bad-op"
+  | "iterhuge", [n, h] =>   -- front of a text of n bytes = the given bytes followed by NULs (n may be 2^32 and more): by
+                            -- PV.Props.C12.decode_window only the first min n 4 bytes matter
+    match n.toNat?, unhex h with
+    | some n, some bs => match PV.Utf8.decode ((bs ++ [0, 0, 0, 0]).take (min n 4)) with
+      | some (cp, k) => s!"ok {cp} {k}"
+      | none => "ERR:notutf8"
+    | _, _ => "bad-op"
+  | "spec.iterhuge", [n, h] =>
+    match n.toNat?, unhex h with
+    | some n, some bs => match PV.Spec.Utf8.specDecode ((bs ++ [0, 0, 0, 0]).take (min n 4)) with
+      | some (cp, k) => s!"ok {cp} {k}"
+      | none => "ERR:notutf8"
+    | _, _ => "bad-op"
   | "spec.decode", [h] =>    -- oracle (spec side)
     match unhex h with
     | some bs => match PV.Spec.Utf8.specDecode bs with
@@ -507,7 +520,7 @@ def cacheU (op : String) (args : List String) : String :=
   | "run", [f, d, child, h] =>
     match toolRanges f, unhex d, childFn child, unhex h with
     | some rs, some [dl], some cf, some input =>
-      let key := fun (l : List UInt8) => (PV.Murmur.hashPieces (PV.Tools.seedOf PV.Gen.cacheSeed) (PV.Fields.rangeFields l rs dl)).toNat
+      let key := fun (l : List UInt8) => PV.Tools.cacheKey rs dl l
       let lines := recs input
       let one := fun (l : List UInt8) => (cf [l]).headD []
       match PV.Cache.run key one lines with
